@@ -33,6 +33,22 @@ def canon_value(v, seen_ids=None, containers=None):
         return ["W", cls, canon_value(v.section, seen_ids, containers)]
     if hasattr(v, "getSectionAttributes"):
         return canon_section(v, seen_ids, containers)
+    import functools
+    import types
+    if isinstance(v, functools.partial):
+        return ["partial", getattr(v.func, "__qualname__", repr(v.func)),
+                [canon_value(x) for x in v.args],
+                {k: canon_value(x) for k, x in v.keywords.items()}]
+    if isinstance(v, (types.FunctionType, types.MethodType, type)):
+        return ["callable", getattr(v, "__qualname__", cls)]
+    if type(v) is object:
+        return ["marker"]
+    mod = type(v).__module__ or ""
+    if mod.startswith("ZConfig.") and hasattr(v, "__dict__"):
+        # application objects built by section datatypes of the shipped
+        # components (factories): compare their state structurally
+        return ["O", cls, {k: canon_value(x, seen_ids, containers)
+                           for k, x in sorted(vars(v).items())}]
     return ["obj", cls, repr(v)]
 
 
